@@ -8,6 +8,7 @@
 From Coq Require Import ZArith List Bool.
 From HV Require Gen.GenCopies Spec.IsolationSpec Model.IsolationModel Proofs.IsolationProofs.
 From HV Require Base.SmtBV Model.SexpDefs Gen.GenRefine Spec.SmtQuerySpec Model.SmtTextModel Proofs.SmtTextProofs.
+From HV Require Gen.GenDynRoom Proofs.DynRoomProofs.
 From HV Require Import Gen.GenPanic Gen.GenRunTest Spec.PanicSpec Model.RunnerModel Proofs.RunnerProofs.
 Import ListNotations.
 Open Scope Z_scope.
@@ -130,6 +131,21 @@ Theorem C03_sibling_paths_do_not_share_mutable_state :
   IsolationModel.table_ok IsolationSpec.path_need GenCopies.extend_path_table = true.
 Proof. exact IsolationProofs.tables_sufficient. Qed.
 Print Assumptions C03_sibling_paths_do_not_share_mutable_state.
+
+(* admissible inputs: "argument values within the reported parameter bounds" -- the bounds printed for a dynamic
+   parameter are its length candidates, taken verbatim (any order) from --array-lengths / --default-*-lengths.
+   Symbolic calldata (Calldata.encode, regenerated) has room for EVERY candidate: at least n symbolic elements /
+   bytes for each candidate n, whatever the order of the list; and not more than the largest candidate. *)
+Theorem C03_every_length_candidate_fits : forall sizes n, In n sizes ->
+  n <= GenDynRoom.array_room sizes /\ n <= GenDynRoom.bytes_room sizes /\
+  GenDynRoom.bytes_room sizes <= GenDynRoom.bytes_room_padded sizes.
+Proof. exact DynRoomProofs.every_candidate_fits. Qed.
+Print Assumptions C03_every_length_candidate_fits.
+
+Theorem C03_room_is_a_candidate : forall sizes, sizes <> [] ->
+  In (GenDynRoom.array_room sizes) sizes /\ In (GenDynRoom.bytes_room sizes) sizes.
+Proof. exact DynRoomProofs.room_is_a_candidate. Qed.
+Print Assumptions C03_room_is_a_candidate.
 
 (* refine_exact (`forall q i, qsat q i -> qsat (refine q) i`): each rule of solve.refine replaces the
    abstraction f_evm_<op>_N by a define-fun whose value, for every width and all operands, is the exact EVM
